@@ -190,7 +190,7 @@ func c18One(img image, cfg Config, seq []string, res *c18Res) *Violation {
 		return nil
 	}
 	before := dirFingerprint(dir)
-	probes := []string{"marker", "a", "b", "c", "d"}
+	probes := []string{"marker", "a", "b", "c", "d", "m"}
 	w := &World{cfg: cfg, mains: map[int]bool{}, probes: probes, ll: map[string]string{}, models: []*Node{NewNode()}}
 	w.alpha = []*BatchSpec{kv("ro", "x", "marker", "ro")}
 	w.s = newSched(cfg)
@@ -338,13 +338,13 @@ func c18Run(j c18Job) (res c18Res) {
 	res.Total = len(dirs)
 	maxLen := 2
 	cfgs := []Config{
-		{Backing: "store", MinMergePct: 100, ReadOnly: true, Concern: 0},
-		{Backing: "store", MinMergePct: 100, ReadOnly: true, Concern: 2, KeepFiles: true},
+		{Backing: "store", MinMergePct: 100, ReadOnly: true, Concern: 0, MergeOp: true},
+		{Backing: "store", MinMergePct: 100, ReadOnly: true, Concern: 2, KeepFiles: true, MergeOp: true},
 	}
 	if j.Tier == "thorough" {
 		maxLen = 3
-		cfgs = append(cfgs, Config{Backing: "store", MinMergePct: 100, ReadOnly: true, Concern: 1, KeysIndexMax: 64, KeysIndexMin: 1},
-			Config{Backing: "store", MinMergePct: 100, ReadOnly: true, Concern: 2})
+		cfgs = append(cfgs, Config{Backing: "store", MinMergePct: 100, ReadOnly: true, Concern: 1, KeysIndexMax: 64, KeysIndexMin: 1, MergeOp: true},
+			Config{Backing: "store", MinMergePct: 100, ReadOnly: true, Concern: 2, MergeOp: true})
 	}
 	seqs := c18Sequences(maxLen)
 	defer func() {
